@@ -494,6 +494,52 @@ def reconf_pass(rep, variant, cnt):
             shutil.rmtree(root, ignore_errors=True)
 
 
+def umask_notation_pass(rep, variant, cnt):
+    """objectstore.umask is an OCTAL number however it is written (with or without leading zeros): every notation of 077, 027, 07 and 0 must give files and
+    directories whose permission bits stay inside that mask (fresh process and fresh token directory per notation)"""
+    import shutil, stat
+    from p11mc import p11 as P
+    for text in ("0077", "077", "77", "0027", "027", "27", "0007", "07", "7", "37", "0", "00"):
+        root = P.scratch_root()
+        try:
+            sd = os.path.join(root, "d0")
+            P.write_conf(sd, umask=text)
+            sh = P.Shell(variant, sd)
+            try:
+                p = P.P11(sh)
+                W.ok(p.Initialize(), "init")
+                sm = W.slot_map(p)
+                W.init_token(p, sm["free"], W.SO_A, "N1", W.USER_A)
+                sm = W.slot_map(p)
+                s = W.ok(p.OpenSession(sm["N1"]), "open")["h"]
+                W.ok(p.Login(s, C.CKU_USER, W.USER_A), "login")
+                W.ok(p.CreateObject(s, F.template("aes128", token=True, private=True, label=b"notation")), "create")
+                p.Logout(s); p.CloseSession(s)
+                W.ok(p.Finalize(), "final")
+            finally:
+                sh.close()
+            eff = int(text, 8)
+            n = 0
+            for dp, dn, fn in os.walk(os.path.join(sd, "tokens")):
+                for name in dn + fn:
+                    q = os.path.join(dp, name)
+                    mode = stat.S_IMODE(os.lstat(q).st_mode)
+                    n += 1
+                    cnt["umask_notation_paths_checked"] = cnt.get("umask_notation_paths_checked", 0) + 1
+                    if mode & eff:
+                        rep.add_violation({"signature": "C06|umask-notation|%s|permission-bits-outside-umask|%s" % (text, "dir" if name in dn else ("lock" if name.endswith(".lock") else "file")),
+                                           "detail": {"path": os.path.relpath(q, sd), "mode": oct(mode), "objectstore.umask": text, "means": oct(eff)},
+                                           "history": [], "action": None, "variant": variant, "store": "file", "replay_module": "c06_atrest", "notation": text})
+                        break
+                else:
+                    continue
+                break
+            if n < 4:
+                rep.harness_errors.append("umask notation pass %s: only %d paths" % (text, n))
+        finally:
+            shutil.rmtree(root, ignore_errors=True)
+
+
 def main(tier):
     rep = Report("C06", tier, "model_checking")
     quick = tier == "quick"
@@ -537,6 +583,7 @@ def main(tier):
         finally:
             ex.close()
     reconf_pass(rep, variant, cnt)
+    umask_notation_pass(rep, variant, cnt)
     if not cnt.get("attribute_values_compared") or cnt.get("scenarios", 0) < 10:
         rep.harness_errors.append("vacuous: %r" % cnt)
     rep.coverage = {"states": cnt.get("scenarios", 0), "transitions": ntasks, "traces_validated_against_impl": cnt.get("scenarios", 0),
@@ -554,6 +601,17 @@ def replay(rec):
     sys.path.insert(0, P.VERIF + "/tools")
     import build_sut
     build_sut.build(rec["variant"]); build_sut.build_ref()
+    if rec.get("notation") is not None:
+        class _R2:
+            def __init__(self): self.v, self.harness_errors = [], []
+            def add_violation(self, x): self.v.append(x["signature"])
+        r2 = _R2()
+        umask_notation_pass(r2, rec["variant"], {})
+        print("recorded:", rec["signature"], "\nobserved:", r2.v)
+        if rec["signature"] in r2.v:
+            print("VIOLATION property=C06 replay=%s" % sys.argv[1])
+            return 1
+        return 0
     if rec.get("reconf") is not None:
         class _R:
             def __init__(self): self.v, self.harness_errors = [], []
